@@ -23,6 +23,7 @@ EXPLANATION = (
     'lookup): KeyValueProperties::GetValue matches with string_view equality, not a prefix/length-limited comparison. C14.R6 '
     '(character class): the trimming predicate of StringUtil::Trim is exactly the whitespace class on both edges (byte sets '
     'computed over all 256 bytes), so invalid bytes stay visible to the validators.')
+EXPLANATION += ' C14.R3 also checks that Delete allocates one member less only behind the key-present edge. C14.R7: the regular expressions of the configured validators, parsed into a normal form over exhaustive byte sets, denote exactly the W3C key / value grammar, and the validator returns true exactly when one of them matches the whole string. The shared rule C09.R7 (no mutable function-local static) is evaluated.'
 NOT_DECIDED = 'grammar exactness of the regular-expression validators; parse/serialise round trip over all strings.'
 
 
